@@ -644,6 +644,8 @@ def run_cases(res, cases, model_ok, label):
 
 
 def explore(res, tier, seed, model_ok=True):
+    import gencheck   # differential test of the translated code (Generated/Code.lean) against the original Python
+    gencheck.run(res, 'C19', tier, seed, model_ok)
     rng = random.Random(seed)
     thorough = tier == 'thorough'
     res.rule = ('generated: target URL (ws/wss, case, port given/absent/0/empty/bad, userinfo, path shapes) x proxies mapping (entry for the scheme: URL / "" / None / missing; '
